@@ -265,6 +265,10 @@ def _bulk_insert(ex, st, post, result):
         if 'MBTiles' in str(getattr(st.fn, 'key', '')):
             # as many columns as record fields: the time stamp column exactly with timestamp support
             g = z3.And(g, ex.truth(st, h['supports_timestamp']) == z3.BoolVal(cols[4:] == ['last_modified']), z3.BoolVal(len(cols) in (4, 5)))
+            text = _literal(em[0].args[0]) or ''
+            # last_modified is written as LOCAL time from the unix time of the record (the readers and the clean-up compare in
+            # the same time base)
+            g = z3.And(g, z3.Implies(ex.truth(st, h['supports_timestamp']), z3.BoolVal("VALUES (?,?,?,?, " + LOCAL_FROM_UNIX + ")" in text)))
     yield ('all_records_inserted_in_column_order', g,
            'one executemany(INSERT OR REPLACE ...) with all collected records; where the statement is literal its column list is '
            '(zoom_level, tile_column, tile_row, tile_data[, last_modified]) - the order of the record fields')
@@ -340,3 +344,90 @@ for _k, _c in (('mapproxy.cache.mbtiles:', 'MBTilesCache'), ('mapproxy.cache.geo
              opaque_fields=TF, stable_fields=['coord'],
              opaque_spec={'cursor': {'pure': True}, 'execute': {'pure': True}, 'commit': {}, 'format': {'pure': True}},
              trace=[_single_lookup('remove')])
+
+
+# ---- MBTiles: level-wise removal (C12) and the time base of `last_modified` ---------------------------------------------------------------
+LOCAL_FROM_UNIX = "datetime(?, 'unixepoch', 'localtime')"
+
+
+def _literal(stmt):
+    import z3
+    t = getattr(stmt, 't', None)
+    return t.as_string() if t is not None and z3.is_string_value(t) else None
+
+
+def _level_removal(ex, st, post, result):
+    import z3
+    from pyvc.values import eq, VSeq
+    h = st.heap[post.env['self'].ref]
+    exe = [e for i, e in T.evs(st, 'execute')]
+    cm = [e for i, e in T.evs(st, 'commit')]
+    ra = ex.truth(st, post.env['remove_all'])
+    ts_ok = ex.truth(st, h['supports_timestamp'])
+    if not exe:
+        yield ('nothing_removed_without_a_criterion', z3.And(z3.Not(ra), z3.Not(ts_ok), z3.BoolVal(not cm)),
+               'nothing is deleted only when neither remove_all is set nor the database has time stamps')
+        return
+    ok = len(exe) == 1 and len(exe[0].args) == 2 and len(cm) == 1 and isinstance(exe[0].args[1], VSeq) and exe[0].args[1].concrete
+    g = z3.BoolVal(bool(ok))
+    if ok:
+        text = _literal(exe[0].args[0]) or ''
+        params = exe[0].args[1].items
+        if len(params) == 1:
+            g = z3.And(g, ra, eq(params[0], post.env['level']), z3.BoolVal('zoom_level = ?' in text and 'last_modified' not in text))
+        else:
+            g = z3.And(g, z3.Not(ra), ts_ok, z3.BoolVal(len(params) == 2), eq(params[0], post.env['level']),
+                       eq(params[1], post.env['timestamp']),
+                       z3.BoolVal('zoom_level = ?' in text and ('last_modified < ' + LOCAL_FROM_UNIX) in text
+                                  and text.index('zoom_level = ?') < text.index('last_modified')))
+    yield ('level_removed_by_its_own_level_and_threshold', g,
+           'remove_all: DELETE of exactly the rows of that level; otherwise (time-stamped database) DELETE of the rows of that level '
+           "whose last_modified is strictly before the threshold, the threshold converted with datetime(?, 'unixepoch', 'localtime') - "
+           'the time base in which last_modified is written; parameters (level, timestamp) in the order of the placeholders; committed')
+
+
+contract('mapproxy.cache.mbtiles:MBTilesCache.remove_level_tiles_before', props=['C12', 'C05'],
+         types=dict(level='int', timestamp='opt[real]', remove_all='bool'), returns='opaque', default_callee='opaque',
+         opaque_spec={'cursor': {'pure': True}, 'execute': {'pure': True}, 'commit': {}},
+         trace=[_level_removal])
+
+
+def _level_db_removal(ex, st, post, result):
+    import z3
+    from pyvc.values import eq
+    gl = [e for i, e in T.evs(st, '_get_level')]
+    ok = len(gl) == 1 and eq(gl[0].args[-1], post.env['level']) is not None
+    g = z3.BoolVal(bool(ok))
+    if ok:
+        g = z3.And(g, eq(gl[0].args[-1], post.env['level']))
+        lc = gl[0].result
+        ra = ex.truth(st, post.env['remove_all'])
+        un = [e for i, e in T.evs(st, 'unlink')]
+        dl = [e for i, e in T.evs(st, 'remove_level_tiles_before')]
+        cl = [(i, e) for i, e in T.evs(st, 'cleanup')]
+        if dl:
+            a = dl[0].args
+            g = z3.And(g, z3.Not(ra), z3.BoolVal(len(dl) == 1 and not un and dl[0].recv is not None and dl[0].recv.t.eq(lc.t) and len(a) == 2
+                                                 and a[1] is post.env['timestamp']), eq(a[0], post.env['level']) if len(a) == 2 else z3.BoolVal(False))
+        else:
+            fname = None
+            for f in ('mbtile_file', 'geopackage_file'):
+                if f in (ex.cur_target or {}).get('opaque_fields', {}):
+                    fname = ex.opaque_field(st, lc, f)
+            first = un[0] if un else None
+            g = z3.And(g, ra, z3.BoolVal(first is not None and len(cl) == 1 and cl[0][0] < st.trace.index(first)),
+                       eq(first.args[0], fname) if first is not None and fname is not None else z3.BoolVal(False))
+    yield ('level_database_of_that_level_only', g,
+           'the level is removed from the database file of THAT level (self._get_level(level)): remove_all closes and unlinks that '
+           'file, otherwise the request is handed to that level database with the same level and threshold')
+
+
+for _k, _c, _f in (('mapproxy.cache.mbtiles:', 'MBTilesLevelCache', 'mbtile_file'), ('mapproxy.cache.geopackage:', 'GeopackageLevelCache', 'geopackage_file')):
+    contract(_k + _c + '.remove_level_tiles_before', props=['C12', 'C05'],
+             types=dict(level='int', timestamp='opt[real]', remove_all='bool'), returns='opaque', default_callee='opaque',
+             opaque_fields={_f: 'str'}, stable_fields=[_f],
+             opaque_spec={'_get_level': {'pure': True}, 'cleanup': {}, 'unlink': {'raises': ['OSError']}, 'remove_level_tiles_before': {},
+                          'glob': {'returns': 'list[str]', 'pure': True}, 'escape': {'pure': True}},
+             opaque=['_get_level'], raises={'OSError': True},
+             loops={0: dict(inv=[], types={})} if 'mbtiles' in _k else {},
+             trace=[_level_db_removal])
